@@ -186,14 +186,24 @@ def run(ctx):
         n_search += 1
         search_fails += impl.search_case(cases[i], thorough=(i in diff) or not ctx.quick)
     ctx.log("search on %d configurations: %d failures" % (n_search, len(search_fails)))
-    ctx.obligation("executable property on the implementation (%d configurations)" % n_search, "search", not search_fails,
-                   str(search_fails[:3]))
+    skey = lambda sf: sf.get("key") or "c04:" + sf["claim"][:60]
+    new_fails = [sf for sf in search_fails if skey(sf) not in ctx.known]
+    ctx.obligation("executable property on the implementation (%d configurations; %d failures are recorded known findings)"
+                   % (n_search, len(search_fails) - len(new_fails)), "search", not new_fails, str(new_fails[:3]))
     seen = set()
     for sf in search_fails:
         if sf["claim"] in seen:
             continue
         seen.add(sf["claim"])
-        ctx.violation("c04:" + sf["claim"][:60], sf["claim"], sf, found=True)
+        ctx.violation(sf.get("key") or "c04:" + sf["claim"][:60], sf["claim"], sf, found=True)
+    stale = [dict(h, case_id=c["id"], classes=c["classes"]) for c, o in zip(cases, outs) for h in o["history_fail"]]
+    n_hist = sum(1 for c in cases if c.get("history"))
+    ctx.obligation("histories on one live object: after every mutation (all setters, rejected values, attenuator / species / "
+                   "atomic data replacement, transforms) the live beam equals a freshly built one, twice (%d histories, %d steps)"
+                   % (n_hist, sum(len(c.get("history") or []) + 1 for c in cases if c.get("history"))), "search", not stale, str(stale[:2]))
+    for h in stale[:2]:
+        ctx.violation("c04-history:%s" % str(h.get("mutation", h.get("step"))).replace(" ", "-")[:40], "a beam that was evaluated, reconfigured through the public setters and "
+                      "evaluated again differs from a freshly built beam of the same configuration", h, found=True)
     raised = [dict(e, case=c) for c, o in zip(cases, outs) for e in o["errors"]]
     ctx.obligation("Beam.density / Beam.direction raise nothing on valid inputs (%d cases)" % len(cases), "search", not raised,
                    str(raised[:2]))
@@ -202,7 +212,7 @@ def run(ctx):
                       e, found=True)
     for kf in key_fail[:1]:
         ctx.violation("c04-keys", "the attenuator asked the atomic data source for the wrong stopping rate", kf, found=True)
-    if diff and not search_fails and not key_fail and not raised:
+    if diff and not new_fails and not key_fail and not raised and not stale:
         for i in diff[:3]:
             ctx.violation("c04-diff:%s" % CODES.get(codes[i] % 1000, codes[i]),
                           "model and implementation differ (%s); the executable property found no failing input"
@@ -222,17 +232,27 @@ def run(ctx):
                                    ("placement:rotated" in c["classes"] or "profile:varying" in c["classes"])),
         "rule": "one case = one beam/attenuator/plasma configuration in its final placement: node count, all rate argument "
                 "triples and coefficient values at all axis nodes, ~25 density probes (nodes, between nodes, off axis, z<0, z=0, "
-                "z=length, z>length, inside/outside/at the clamp radius) and 6 direction probes; non-trivial = stopping > 0 and "
-                "(rotated placement or spatially varying profile)",
+                "z=length, z>length, z=-0.0, inside/outside/at the clamp radius) and 8 direction probes; non-trivial = stopping > 0 and "
+                "(rotated placement or spatially varying profile).  Regular extra classes in both tiers: every third case is a HISTORY on "
+                "one live beam (fresh -> single public mutations: each beam/attenuator setter incl. rejected values, attenuator "
+                "replacement, transforms, re-parenting, composition set/clear/add-replace, new atomic data; zero power/energy/divergence/"
+                "density/temperature/rates/empty composition in between; after every mutation live == freshly built, twice; the final "
+                "state goes through the Coq tie and the search); argument forms (int, numpy int/float32/float64 scalars, 0/1 flag); exact "
+                "power-of-two rescaling of power, densities and lengths over 2^-40..2^30; node counts for length/step = 2, 3 exactly and "
+                "99-101 nodes; empty composition; default-constructed attenuator; in the search: getters, attenuator.density directly, "
+                "calculate_attenuation(), conversion round trips, every construction route, reversed species order, ulp steps across "
+                "the clamp radius, direction at z where z*z under/overflows (known finding)",
         "distribution": dict(dist, cases=len(cases), density_probes=n_probe, density_probes_zero=zero_probes,
                              direction_probes=sum(len(o["dirs"]) for o in outs),
                              rate_calls=sum(len(o["args"]) for o in outs),
                              nodes_min=min(o["n_nodes"] for o in outs), nodes_max=max(o["n_nodes"] for o in outs),
+                             histories=n_hist, history_mutations_observed=sum(o.get("n_micro", 0) for o in outs),
                              ambiguous_cases=len(amb_cases), ambiguous_probes=amb_probes, search_configurations=n_search),
         "tolerance": {"rate arguments / coefficients": "2^-40 relative", "density": "2^-36 relative + 2^-46 of the larger node value of the interpolation segment (cancellation in raysect's y0+(y1-y0)t, measured 3.9e-11 relative at the end of a segment with optical depth 13); zero-set exact",
                       "direction": "unit length 2^-45, parallel 2^-40", "sqrt table": "verified in Coq to 2^-48",
                       "exp table key": "2^-46 (1+|x|)", "ambiguity margin": "2^-30 (clamp radius, step profile), 2^-40 (node count)",
-                      "search": "flux 1e-7 + discretisation allowance; monotone 1e-12; streamline 1e-7"},
+                      "search": "flux 1e-7 + discretisation allowance; monotone 1e-12; streamline 1e-7; live vs fresh object and "
+                                "construction routes: bit-identical; species order 1e-10 (+1e-15 of the on-axis maximum)"},
         "partial": ["C04_flux_partial / C04_flux_no_stopping_partial: the cross-section integral is an abstract functional with "
                     "the change-of-variables law and the Gaussian normalisation as hypotheses (analytic facts not proved)",
                     "C04_streamline_invariant / C04_streamline_constant are stated over R for the direction formula transcribed from the model "
